@@ -68,7 +68,8 @@ FixedLenMC(c, f) ==
       [] c.fam = "unbal" -> c.n + 1                     \* begin^n text1
       [] c.fam = "chain" -> IF f <= c.n THEN 3 ELSE 1   \* file k: text1, %include file k+1, text2; the last file: text1
       [] c.fam = "long"  -> 3                           \* text1, x^n, text2
-      [] c.fam = "reg"   -> 6                           \* begin <last registered> text1 end begin <second> text1 end
+      [] c.fam = "reg"   -> 9                           \* begin <last registered> text1 end begin <second> text1 end begin <unknown> text1 end
+                                                        \* (the three kinds of lookup - late hit, early hit, miss - at every table size)
       [] OTHER -> 0
 FixedLineMC(c, f, i) ==
     CASE c.fam = "nest"  -> IF i <= 2 * c.n THEN (IF i % 2 = 1 THEN BeginOf((i + 1) \div 2) ELSE T1)
@@ -76,7 +77,7 @@ FixedLineMC(c, f, i) ==
       [] c.fam = "unbal" -> IF i <= c.n THEN BeginOf(i) ELSE T1
       [] c.fam = "chain" -> IF f <= c.n THEN (CASE i = 1 -> T1 [] i = 2 -> Inc(f + 1) [] OTHER -> T2) ELSE T1
       [] c.fam = "long"  -> (CASE i = 1 -> T1 [] i = 2 -> Long(c.n) [] OTHER -> T2)
-      [] c.fam = "reg"   -> (CASE i = 1 -> BeginC(c.nreg) [] i = 4 -> BeginC(2) [] i \in {2, 5} -> T1 [] OTHER -> END)
+      [] c.fam = "reg"   -> (CASE i = 1 -> BeginC(c.nreg) [] i = 4 -> BeginC(2) [] i = 7 -> 3 [] i \in {2, 5, 8} -> T1 [] OTHER -> END)
 
 P_libast == <<108, 105, 98, 97, 115, 116>>        \* "libast"
 P_tsabil == <<116, 115, 97, 98, 105, 108>>        \* "tsabil"  (same length: the replaced name string may land at the same address)
